@@ -24,6 +24,10 @@ static void mul_shape(const char *label, mp_size_t un, mp_size_t vn, int kind, i
   else if (!strcmp(label, "toom3_n")) { ws = gb_get(3, MPN_TOOM3_MUL_N_TSIZE(un), 1); gb_fill(r, 2 * un); log_mul("mpn_toom3_mul_n", a, un, b, un); mpn_toom3_mul_n(r, a, b, un, ws); out_mul(r, 2 * un); }
   else if (!strcmp(label, "toom4_n")) { gb_fill(r, 2 * un); log_mul("mpn_toom4_mul_n", a, un, b, un); mpn_toom4_mul_n(r, a, b, un); out_mul(r, 2 * un); }
   else if (!strcmp(label, "basecase") || !strcmp(label, "basecase_n")) { gb_fill(r, un + vn); log_mul("mpn_mul_basecase", a, un, b, vn); mpn_mul_basecase(r, a, un, b, vn); out_mul(r, un + vn); }
+  if (un > vn) {
+    /* the shorter operand is a prefix of the longer one, SAME POINTER (mpn_mul only forbids overlap with the destination) */
+    gb_fill(r, un + vn); log_mul("mpn_mul", a, un, a, vn); top = mpn_mul(r, a, un, a, vn); fn_out_u64("top", top); out_mul(r, un + vn);
+  }
   if (un == vn) {
     /* same object: the squaring path */
     gb_fill(r, 2 * un); log_mul("mpn_mul", a, un, a, un); top = mpn_mul(r, a, un, a, un); fn_out_u64("top", top); out_mul(r, 2 * un);
@@ -73,9 +77,13 @@ void drv_c01_fft(int tier, unsigned long seed, const char *extra) {
   while (fscanf(f, "%ld %ld %ld %ld %15s", &n1, &n2, &depth, &w, kind) == 5) {
     lines++; if (!MINE(sh, lines)) continue;
     rec_reset("c01_fft", lines, seed);
-    for (pass = 0; pass < 2; pass++) {
+    for (pass = 0; pass < 10; pass++) {
       mp_ptr a = gb_get(0, n1, 1), b = gb_get(1, n2, 1), r = gb_get(2, n1 + n2, 1); mp_limb_t top;
-      rnd_limbs(a, n1, pass ? (int)((lines + seed) % NKINDS) : 1); rnd_limbs(b, n2, pass ? 3 : 1);
+      /* passes 0,1: all ones / mixed; 2..9: one operand an exact power of two (a transformed coefficient is then exactly
+         2^(nw) = -1 mod 2^(nw)+1 for many bit positions), the other uniform, runs or all ones */
+      if (pass < 2) { rnd_limbs(a, n1, pass ? (int)((lines + seed) % NKINDS) : 1); rnd_limbs(b, n2, pass ? 3 : 1); }
+      else if (pass & 1) { rnd_limbs(a, n1, 2); rnd_limbs(b, n2, pass == 3 ? 1 : pass == 5 ? 3 : 0); }
+      else { rnd_limbs(a, n1, pass == 2 ? 1 : pass == 4 ? 3 : 0); rnd_limbs(b, n2, 2); }
       gb_fill(r, n1 + n2);
       fn_begin(!strcmp(kind, "mfa") ? "mpn_mul_mfa_trunc_sqrt2" : "mpn_mul_trunc_sqrt2");
       fn_in_limbs("a", a, n1); fn_in_int("an", n1); fn_in_limbs("b", b, n2); fn_in_int("bn", n2); fn_in_int("depth", depth); fn_in_int("w", w); fn_mid();
@@ -84,6 +92,12 @@ void drv_c01_fft(int tier, unsigned long seed, const char *extra) {
       if (pass == 0) {
         gb_fill(r, n1 + n2); log_mul("mpn_mul", a, n1, b, n2); top = mpn_mul(r, a, n1, b, n2); fn_out_u64("top", top); out_mul(r, n1 + n2);
         if (n1 == n2) { gb_fill(r, 2 * n1); log_mul("mpn_sqr", a, n1, a, n1); mpn_sqr(r, a, n1); out_mul(r, 2 * n1); }
+        else { /* same pointer, different lengths: not a squaring */
+          gb_fill(r, n1 + n2); log_mul("mpn_mul", a, n1, a, n2); top = mpn_mul(r, a, n1, a, n2); fn_out_u64("top", top); out_mul(r, n1 + n2);
+          gb_fill(r, n1 + n2); fn_begin(!strcmp(kind, "mfa") ? "mpn_mul_mfa_trunc_sqrt2" : "mpn_mul_trunc_sqrt2");
+          fn_in_limbs("a", a, n1); fn_in_int("an", n1); fn_in_limbs("b", a, n2); fn_in_int("bn", n2); fn_in_int("depth", depth); fn_in_int("w", w); fn_mid();
+          if (!strcmp(kind, "mfa")) mpn_mul_mfa_trunc_sqrt2(r, a, n1, a, n2, depth, w); else mpn_mul_trunc_sqrt2(r, a, n1, a, n2, depth, w);
+          out_mul(r, n1 + n2); }
       }
     }
   }
